@@ -336,7 +336,7 @@ CHECKS = [
           rule='22 shipped files x 2 (6) seeds x 45 actions: built environment == hand-assembled environment (canonical trajectories, spaces, action list); input unchanged; second build identical'),
     Check('differential_perturbed', oracle_diff, strategy=strat_diff, examples={'quick': 100, 'thorough': 300}, shards={'quick': 8, 'thorough': 16},
           rule='valid perturbations (non-square shapes, other counts, colour subsets, re-ordered action sub-lists, extra/reversed transitions, other observation functions/areas, scaled rewards) x seeds x generated action lists',
-          required=['perturbed', 'mod:reset', 'mod:actions', 'mod:reverse_transitions']),
+          required=['perturbed', 'mod:reset', 'mod:actions', 'mod:reverse_transitions', 'mod:vis']),
     Check('component_factories', oracle_factory, strategy=strat_factory, examples={'quick': 300, 'thorough': 1200}, shards={'quick': 4, 'thorough': 16},
           rule='factory(name, **kw) for all six component kinds with accepted, unaccepted and falsy-valued parameters == underlying function with the accepted parameters; missing required / unknown name -> ValueError',
           required=['unaccepted_param', 'falsy_param', 'kind:reward', 'kind:reset', 'kind:visibility']),
